@@ -16,7 +16,7 @@ Prologues == {"ok", "short", "bad", "banner"}
 \* well-framed requests
 \* (get_padded / get_smuggle: a Get whose frame is longer than its CBOR item - zero filler, resp. a complete Delete frame as
 \*  filler; a frame is consumed to its declared length, so both are plain Gets and the filler is never a request)
-Requests == {"hello", "hello_other", "put_empty_badhash", "list", "get", "get_padded", "get_smuggle", "get_badpath", "put_new", "put_cas_c1", "put_badhash", "put_badpath", "put_dir_badhash", "put_under_file", "delete_c2", "delete_badpath"}
+Requests == {"hello", "hello_other", "put_empty_badhash", "list", "get", "get_padded", "get_smuggle", "get_badpath", "get_missing_maxframe", "put_new", "put_cas_c1", "put_badhash", "put_badpath", "put_dir_badhash", "put_under_file", "delete_c2", "delete_badpath"}
 \* pieces that are not a well-framed request
 Breakers == {"oversize_2p20p1", "oversize_u32max", "undecodable", "unknown_variant", "zero_len", "deep_nesting", "huge_inner_len",
              "eof_in_prefix", "eof_in_body", "put_content_eof", "put_len_beyond_eof", "bye"}
@@ -45,6 +45,7 @@ Frame == /\ st = "AwaitFrame"
                    [] x = "put_empty_badhash" -> Rep("Error:content hash mismatch") /\ UNCHANGED <<st, exit, f, conf>>   \* Put(f, expected c1, len 0, a hash that is not the empty content's)
                    [] x = "list" -> Rep(<<"List", f, conf>>) /\ UNCHANGED <<st, exit, f, conf>>
                    [] x \in {"get", "get_padded", "get_smuggle"} -> Rep(IF f = "none" THEN "Error:not found" ELSE <<"Content", f>>) /\ UNCHANGED <<st, exit, f, conf>>
+                   [] x = "get_missing_maxframe" -> Rep("Error:not found") /\ UNCHANGED <<st, exit, f, conf>>   \* a request frame of (nearly) the largest size the hub takes, naming an acceptable path that cannot exist
                    [] x \in {"get_badpath", "put_badpath", "delete_badpath"} -> Rep("Error:bad path") /\ UNCHANGED <<st, exit, f, conf>>
                    [] x = "put_new" ->       \* Put(f, expected = absent, content c2)
                         IF f = "none" THEN f' = "c2" /\ Rep(<<"Put", "committed", "c2">>) /\ UNCHANGED <<st, exit, conf>>
